@@ -424,6 +424,12 @@ pub fn closure_enter(stage: u32, key: u32, val: i32, is_yield: bool) {
     }
 }
 
+/// Number of workers that have begun and not yet ended (free mode gauge).
+pub fn live_workers() -> usize {
+    let g = lock();
+    g.as_ref().map(|s| s.live).unwrap_or(0)
+}
+
 pub fn is_sched_active() -> bool {
     let g = lock();
     g.as_ref().map(|s| s.sched && !s.abandon).unwrap_or(false)
